@@ -149,6 +149,39 @@ def fam_modes():
     return out
 
 
+def fam_depcycle():
+    """dependency cycles among top-level processes (F29): length 1..3, entering and leaving a process through its first,
+    second or third provider name; plus the acyclic variant of each (the last process closes instead of waiting)"""
+    out = []
+    k = 0
+    for length in (1, 2, 3):
+        for nprov in (1, 2, 3):
+            for enter in range(nprov):
+                for leave in range(nprov):
+                    # process i provides p<i>_0..p<i>_{nprov-1}; it waits for the `enter`-th name of process i+1;
+                    # the clients of the other names are separate consumer processes
+                    for cyclic in (True, False):
+                        lines = []
+                        consumers = []
+                        for i in range(length):
+                            provs = ["p%d_%d" % (i, j) for j in range(nprov)]
+                            nxt = "p%d_%d" % ((i + 1) % length, enter)
+                            last = (i == length - 1)
+                            body = "close self" if (last and not cyclic) else "wait %s; print s%d; close self" % (nxt, i)
+                            lines.append("prc[%s] : 1 = %s" % (", ".join(provs), body))
+                        used = {"p%d_%d" % ((i + 1) % length, enter) for i in range(length) if cyclic or i != length - 1}
+                        for i in range(length):
+                            for j in range(nprov):
+                                nm = "p%d_%d" % (i, j)
+                                if nm not in used:
+                                    consumers.append("prc[c%d_%d] : 1 = wait %s; print c%d_%d; close self" % (i, j, nm, i, j))
+                        if leave != 0:
+                            continue      # (kept for symmetry of the loops; the entering position is what matters)
+                        out.append(("decl:depcycle:%d" % k, "declshape:depcycle", "\n".join(lines + consumers) + "\n"))
+                        k += 1
+    return out
+
+
 def ladder(n):
     lines = []
     for i in range(n):
@@ -171,7 +204,7 @@ def fam_ladder(sizes=(1, 2, 4, 8, 16, 32, 48)):
 
 def stream():
     seen = set()
-    for fam in (fam_alias, fam_cycle, fam_dupdecl, fam_order, fam_modes, fam_ladder):
+    for fam in (fam_alias, fam_cycle, fam_dupdecl, fam_order, fam_modes, fam_depcycle, fam_ladder):
         for i, k, t in fam():
             if t not in seen:
                 seen.add(t)
